@@ -3,5 +3,6 @@ INVARIANT EqIsEquivalence
 INVARIANT EqualSpacesEqualMembers
 INVARIANT MembersFlattenToFlatSize
 INVARIANT FlattenInjectiveOnMembers
+INVARIANT FlattenInSpaceOrderAgrees
 INVARIANT SomeMemberSomeNonMember
 CHECK_DEADLOCK FALSE
